@@ -462,7 +462,15 @@ def run(chk, replay=None):
             na = (R.cc if route == 'sub' else R.c).nodal_analysis()
             eqs = dict(na._equations)
         except Exception as e:   # noqa
-            chk.count('lcapy-error', 'nodal:%s:%s' % (net.analysis, type(e).__name__))
+            chk.count('lcapy-error', 'nodal:%s:%s:%s' % (net.analysis, type(e).__name__, str(e)[:34]))
+            # error branch of the correspondence: what the code refuses, the model refuses
+            r = drv.ask1(net.model_req('form.nodal x'))
+            chk.coverage['correspondence']['compared'] += 1
+            chk.count('refusal', 'nodal lcapy:raises model:%s' % ('refuses' if r.startswith('error') else 'builds'))
+            if not r.startswith('error'):
+                chk.coverage['correspondence']['disagreements'] += 1
+                disagreements.append({'what': 'nodal equation', 'netlist': net.lines(), 'analysis': net.model_analysis(),
+                                      'lcapy': 'raises %s: %s' % (type(e).__name__, str(e)[:80]), 'model': r[:200]})
             return
         nodes = [n for n in na._unknowns if n != '0']
         unk = [na._unknowns[n].sympy for n in nodes]
@@ -477,8 +485,16 @@ def run(chk, replay=None):
         r = drv.ask1(net.model_req('form.nodal x'))
         model = None if r.startswith('error') or r.startswith('bad') else \
             {p.split(' = ')[0]: parse_form(p.split(' = ')[1]) for p in r.split(' || ')}
+        has_k = any(l.startswith('K') for l in net.extra)
         if model is None:
             chk.count('model', 'nodal:' + r[:40])
+            if r.startswith('error') and not has_k:
+                # the model refuses what the code accepts (coupled inductors: finding C15-k, judged by the oracle below)
+                chk.coverage['correspondence']['compared'] += 1
+                chk.coverage['correspondence']['disagreements'] += 1
+                disagreements.append({'what': 'nodal equation', 'netlist': net.lines(), 'analysis': net.model_analysis(),
+                                      'lcapy': 'builds', 'model': r[:200]})
+        forms = {}
         for node, (lhs, rhs) in eqs.items():
             if node.startswith('*'):
                 continue
@@ -498,6 +514,7 @@ def run(chk, replay=None):
             chk.case(('nodal', route, net.key(), node), True)
             # correspondence
             got = ({k: v for k, v in cs.items() if v != '0'}, c0)
+            forms[node] = got
             if model is not None:
                 chk.coverage['correspondence']['compared'] += 1
                 mm = model.get(node)
@@ -511,6 +528,8 @@ def run(chk, replay=None):
             if r != '0':
                 # structural key (all of these findings are fixed: a match is reported as a VIOLATION again)
                 why = unsafe_nodal(net, int(node))
+                if has_k:
+                    why = ['mutual-inductance-ignored']
                 if not why and net.analysis == 'ac' and any(c[1] in 'CL' and int(node) in (c[2], c[3]) for c in net.cpts):
                     why = ['ac-impedance-missing-j']
                 key = {'formulation': 'nodal', 'defect': why[0] if why else 'unexplained'}
@@ -522,6 +541,28 @@ def run(chk, replay=None):
                     'nodal equation at node %s is not satisfied by the reported node voltages' % node)
             else:
                 chk.count('oracle', 'nodal-holds')
+        # the matrix form A y = b of the nodal equations (na.A, na.b): each row is the printed equation and holds
+        if net.analysis != 'time' and forms and len(forms) == len([n_ for n_ in eqs if not n_.startswith('*')]):
+            try:
+                Am, bm = sym.Matrix(na.A), sym.Matrix(na.b)
+                order = [n_ for n_ in eqs if not n_.startswith('*')]
+                for i, node in enumerate(order):
+                    row = {nodes[j]: gq(sval(Am[i, j], R.subs)) for j in range(Am.shape[1])}
+                    row = {k: v for k, v in row.items() if v != '0'}
+                    cst = negq(gq(sval(bm[i, 0], R.subs)))
+                    chk.case(('nodal-Ab', route, net.key(), node), True)
+                    if not same_eq((row, cst), forms[node]):
+                        cex({'formulation': 'nodal', 'defect': 'matrix-form-differs'},
+                            {'input': {'netlist': net.lines(), 'analysis': net.analysis, 'point': fstr(net.point), 'node': node,
+                                       'history': R.edit, 'route': route}, 'A_row': row, 'minus_b': cst, 'equation': forms[node],
+                             'spec': 'row of A y = b must be the printed nodal equation'},
+                            'row %s of the nodal A y = b is not the printed nodal equation' % node)
+                    else:
+                        chk.count('oracle', 'nodal-Ab-row-is-equation')
+            except NotExact as ex:
+                chk.count('degenerate', 'nodal-Ab:%s' % ex)
+            except Exception as ex:   # noqa
+                chk.count('lcapy-error', 'nodal-Ab:%s:%s' % (type(ex).__name__, str(ex)[:40]))
 
     # ------------------------------------------------------------------ mesh
     def check_mesh(net, R, route='sub'):
@@ -533,6 +574,25 @@ def run(chk, replay=None):
             unk = [u.sympy for u in la._unknowns]
         except Exception as e:   # noqa
             chk.count('lcapy-error', 'mesh:%s:%s:%s' % (net.analysis, type(e).__name__, str(e)[:30]))
+            # error branch: the model refuses at least one loop of the graph (or the graph itself)
+            try:
+                from lcapy.circuitgraph import CircuitGraph
+                gl = [list(l) for l in CircuitGraph.from_circuit(R.cc if route == 'sub' else R.c).loops()]
+            except Exception:   # noqa
+                gl = None
+            if gl is None:
+                r = drv.ask1(net.model_req('form.cycles x', ' || loops'))
+            elif gl:
+                r = drv.ask1(net.model_req('form.mesh patched', ' || loops || ' + ' || '.join(' '.join(l) for l in gl)))
+            else:
+                return
+            chk.coverage['correspondence']['compared'] += 1
+            refuses = 'error' in r
+            chk.count('refusal', 'mesh lcapy:raises model:%s' % ('refuses' if refuses else 'builds'))
+            if not refuses:
+                chk.coverage['correspondence']['disagreements'] += 1
+                disagreements.append({'what': 'mesh equation', 'netlist': net.lines(), 'analysis': net.model_analysis(),
+                                      'lcapy': 'raises %s: %s' % (type(e).__name__, str(e)[:80]), 'model': r[:200], 'loops': gl})
             return
         if not loops:
             chk.count('degenerate', 'mesh-no-loops')
@@ -587,6 +647,7 @@ def run(chk, replay=None):
         except Exception as e:   # noqa
             chk.count('lcapy-error', 'mesh-solve:%s' % type(e).__name__)
             return
+        mforms = {}
         for m, (cur, (lhs, rhs_)) in enumerate(eqs):
             try:
                 e = (lhs - rhs_).sympy
@@ -603,6 +664,7 @@ def run(chk, replay=None):
                 continue
             chk.case(('mesh', route, net.key(), m), True)
             got = ({k: v for k, v in cs.items() if v != '0'}, c0)
+            mforms[m] = got
             matched = None
             for variant in MESH_VARIANTS:
                 if replies[variant][m] is not None and same_eq(replies[variant][m], got):
@@ -638,7 +700,8 @@ def run(chk, replay=None):
                 # the edge-based model would print something else; the other keys belong to fixed findings
                 m_asis, m_pat = replies['asis'][m], replies['patched'][m]
                 is_c = par_on_loop and m_asis is not None and same_eq(m_asis, got) and not (m_pat is not None and same_eq(m_pat, got))
-                defect = 'parallel-components' if is_c else 'initial-condition' if ic_on_loop else \
+                defect = 'mutual-inductance-ignored' if any(l.startswith('K') for l in net.extra) else \
+                    'parallel-components' if is_c else 'initial-condition' if ic_on_loop else \
                     'ac-impedance-missing-j' if ac_react else 'unexplained'
                 cex({'formulation': 'mesh', 'defect': defect},
                     {'input': {'netlist': net.lines(), 'analysis': net.analysis, 'point': fstr(net.point), 'loops': loops, 'mesh': m, 'history': R.edit, 'route': route},
@@ -649,12 +712,31 @@ def run(chk, replay=None):
                     'mesh equation %d is not satisfied by the reported branch currents' % (m + 1))
             else:
                 chk.count('oracle', 'mesh-holds')
+        # the matrix form A y = b of the mesh equations (la.A, la.b)
+        if mforms and len(mforms) == len(eqs):
+            try:
+                Am, bm = sym.Matrix(la.A), sym.Matrix(la.b)
+                for m in range(len(eqs)):
+                    row = {str(j): gq(sval(Am[m, j], R.subs)) for j in range(Am.shape[1])}
+                    row = {k: v for k, v in row.items() if v != '0'}
+                    cst = negq(gq(sval(bm[m, 0], R.subs)))
+                    chk.case(('mesh-Ab', route, net.key(), m), True)
+                    if not same_eq((row, cst), mforms[m]):
+                        cex({'formulation': 'mesh', 'defect': 'matrix-form-differs'},
+                            {'input': {'netlist': net.lines(), 'analysis': net.analysis, 'point': fstr(net.point), 'loops': loops,
+                                       'mesh': m, 'history': R.edit, 'route': route}, 'A_row': row, 'minus_b': cst,
+                             'equation': mforms[m], 'spec': 'row of A y = b must be the printed mesh equation'},
+                            'row %d of the mesh A y = b is not the printed mesh equation' % (m + 1))
+                    else:
+                        chk.count('oracle', 'mesh-Ab-row-is-equation')
+            except NotExact as ex:
+                chk.count('degenerate', 'mesh-Ab:%s' % ex)
+            except Exception as ex:   # noqa
+                chk.count('lcapy-error', 'mesh-Ab:%s:%s' % (type(ex).__name__, str(ex)[:40]))
 
     # ------------------------------------------------------------------ MNA matrix equations
     def check_mna(net, R):
         chk.count('formulation', 'mna-matrix')
-        if net.analysis == 'time':
-            return
         try:
             cc = R.cc
             eq = cc.matrix_equations(form='A y = b')
@@ -662,6 +744,11 @@ def run(chk, replay=None):
             Z = eq.rhs.sympy
             A, y, Z = sym.Matrix(A), sym.Matrix(y), sym.Matrix(Z)
             unames = [str(u.func) if hasattr(u, 'func') and u.args else str(u) for u in y]
+            # time-domain unknowns are printed vn1(t), iv1(t): node and component names in lower case
+            low = net.analysis == 'time'
+            if low:
+                cn = {nm.lower(): nm for nm in R.c.elements}
+                unames = ['Vn' + u[2:] if u.startswith('vn') else 'I' + cn.get(u[1:], u[1:]) for u in unames]
         except Exception as e:   # noqa
             chk.count('lcapy-error', 'mna:%s:%s' % (net.analysis, type(e).__name__))
             return
@@ -694,8 +781,26 @@ def run(chk, replay=None):
             else:
                 chk.count('oracle', 'mna-row-holds')
         # correspondence with the stamp model (C01's handler in this driver)
-        an = {'dc': 'dc', 'lap': 's %s' % fstr(net.point), 'ac': 'ac %s' % fstr(net.point)}[net.analysis]
-        anl = {'dc': 'dc', 'lap': 'ivp %s' % fstr(net.point), 'ac': 'ac %s' % fstr(net.point)}[net.analysis]
+        anl = {'dc': 'dc', 'time': 'dc', 'lap': 'ivp %s' % fstr(net.point), 'ac': 'ac %s' % fstr(net.point)}[net.analysis]
+        # the other printed forms: y = Ainv b with the inverse evaluated must be the reported solution itself
+        if len(labels) <= 6 and (len(net.cpts) + len(net.point.as_integer_ratio())) % 3 == 0:
+            try:
+                eq2 = cc.matrix_equations(form='y = Ainv b', invert=True)
+                rhs2 = sym.Matrix(eq2.rhs.sympy.doit() if hasattr(eq2.rhs.sympy, 'doit') else eq2.rhs.sympy)
+                got2 = [gq(sval(rhs2[i, 0], subs)) for i in range(rhs2.shape[0])]
+                chk.case(('mna-inv', net.key()), True)
+                if got2 != xs:
+                    cex({'formulation': 'mna', 'defect': 'inverse-form-differs'},
+                        {'input': {'netlist': net.lines(), 'analysis': net.analysis, 'point': fstr(net.point), 'history': R.edit},
+                         'Ainv_b': dict(zip(labels, got2)), 'reported': dict(zip(labels, xs)),
+                         'spec': 'the printed y = Ainv b must evaluate to the reported solution'},
+                        'matrix equation y = Ainv b does not evaluate to the reported solution')
+                else:
+                    chk.count('oracle', 'mna-Ainv-b-is-solution')
+            except NotExact as ex:
+                chk.count('degenerate', 'mna-inv:%s' % ex)
+            except Exception as ex:   # noqa
+                chk.count('lcapy-error', 'mna-inv:%s:%s' % (type(ex).__name__, str(ex)[:40]))
         real = {}
         for i, li in enumerate(labels):
             for j, lj in enumerate(labels):
@@ -748,8 +853,20 @@ def run(chk, replay=None):
              ('R2', 'R', 3, 0, Fraction(7), None, None)], 'ac', Fraction(2)),
     ]
     nets = list(fixed)
-    for a in plan:
-        nets.append(gen_net(rng, a, max_nodes=4 if quick else 5, reactive=(a != 'time')))
+    # coupled inductors are generated once finding C15-k is listed (known: the oracle reports it; fixed: both sides refuse)
+    k_listed = any(f.get('id') == 'C15-k' for f in chk.findings)
+    chk.coverage['coupled_inductors_in_circuit_stream'] = k_listed
+    for i, a in enumerate(plan):
+        net = gen_net(rng, a, max_nodes=4 if quick else 5, reactive=(a != 'time'))
+        if i % 4 == 3:
+            # dependent sources, transformers, couplings: nodal / mesh refuse them (error branch), the MNA matrix equations take them
+            k = add_extra(rng, net, ['E', 'G', 'F', 'H', 'TF'] + (['K', 'K'] if k_listed and a in ('lap', 'ac') else []))
+            chk.count('circuit-extra', k or 'none')
+        nets.append(net)
+    if k_listed:
+        nets.insert(len(fixed), Net([('V1', 'V', 1, 0, Fraction(2), None, 'step'), ('R1', 'R', 1, 2, Fraction(3), None, None),
+                                     ('L1', 'L', 2, 0, Fraction(4), None, None), ('L2', 'L', 3, 0, Fraction(1), None, None),
+                                     ('R2', 'R', 3, 0, Fraction(1), None, None)], 'lap', Fraction(2), ['K1 L1 L2 1/2']))
     rep = None
     replay_edit = None
     if replay:
@@ -793,7 +910,7 @@ def run(chk, replay=None):
         check_nodal(net, R)
         if net.analysis != 'time':
             check_mesh(net, R)
-            check_mna(net, R)
+        check_mna(net, R)
         if net.analysis == 'ac' and R.c is not R.cc and not R.edit:
             check_nodal(net, R, 'direct')
             check_mesh(net, R, 'direct')
@@ -905,6 +1022,26 @@ def run(chk, replay=None):
                 'state-space response differs from circuit analysis for %s' % bad[0][0])
         else:
             chk.count('oracle', 'ss-response-equals-circuit')
+        # eigenvalues of A are natural frequencies of the netlist: at every rational eigenvalue the Laplace-domain MNA
+        # matrix of the netlist itself (Lean stamp model of C01) is singular
+        try:
+            evs = [ev for ev in sym.Matrix(n, n, [sym.sympify(v) for v in ss.A.sympy]).eigenvals() if ev.is_Rational]
+            step_lines = []
+            for (name, ty, n1, n2, val, ic, sk) in net.cpts:
+                step_lines.append('%s %d %d step %s' % (name, n1, n2, fstr(val)) if ty in 'VI' else '%s %d %d %s' % (name, n1, n2, fstr(val)))
+            for ev in evs:
+                r = drv.ask1('ss.singular x || %s || %s' % (gq(ev), ' || '.join(step_lines + net.extra)))
+                if r == 'regular':
+                    cex({'formulation': 'ss-circuit', 'defect': 'eigenvalue-not-natural-frequency'},
+                        {'input': {'netlist': net.lines(), 's': fstr(net.point)}, 'A': A, 'eigenvalue': str(ev),
+                         'spec': 'the MNA matrix of the netlist at s = eigenvalue of A must be singular'},
+                        'an eigenvalue of A is not a natural frequency of the circuit')
+                elif r == 'singular':
+                    chk.count('oracle', 'ss-eigenvalue-is-natural-frequency')
+                else:
+                    chk.count('model', 'ss-singular:' + r[:30])
+        except Exception as e:   # noqa
+            chk.count('lcapy-error', 'ss-eig:%s' % type(e).__name__)
         # characteristic polynomial = det(sI - A); G = C (sI-A)^-1 B + D
         try:
             P = gq(sval(ss.P, subs))
